@@ -57,7 +57,9 @@ def param_int(cell, name):
     return None
 
 
-def check(design, foreign=None):
+def check(design, foreign=None, partly_used_pads=()):
+    """partly_used_pads: names of top-level pad wires of which only some bits are used by buffers (their other bits have
+    no driver, which is not a fault of the document)."""
     foreign = foreign or {}
     problems = []
     def bad(msg):
@@ -205,6 +207,8 @@ def check(design, foreign=None):
                 if (w.name, k) in inout_bits:
                     continue
                 ds = drivers.get((w.name, k), [])
+                if len(ds) == 0 and w.name in partly_used_pads and w.port_kind:
+                    continue
                 if len(ds) != 1:
                     bad(f"{where}: wire {w.name} bit {k} has {len(ds)} drivers {ds[:3]}")
                 elif w.port_kind == "input" and ds != ["module input"]:
